@@ -30,7 +30,8 @@ ASSUMPTIONS = ["oracle: Python ast evaluation of the declared strings with numpy
                "the oracle value under a 4e-16 relative jitter of its inputs",
                "names declared real are sampled real, services declared complex are sampled complex (SymPy's assumptions)"]
 REQUIRED_OBS = {"expressions_compared": 1500, "models_checked": 80, "live_variables_compared": 500, "residual_slots_compared": 500,
-                "regeneration_files_compared": 5, "staleness_probes": 1}
+                "regeneration_files_compared": 5, "staleness_probes": 1, "md5_sensitivity_probes": 1000,
+                "points_with_exact_zeros_compared": 1000}
 INCONCLUSIVE_CAP = 0.05
 
 LIVE_CASES = ["kundur/kundur_full.xlsx", "ieee14/ieee14_full.xlsx", "ieee39/ieee39_full.xlsx", "ieee14/ieee14_wt3.xlsx",
@@ -48,7 +49,7 @@ def cases(tier, seed):
     npts = 4 if tier == "quick" else 48
     for fname, cls_list in file_classes:
         for cn in cls_list:
-            out.append(dict(id="model:" + cn, kind="model", model=cn, file=fname, npts=npts))
+            out.append(dict(id="model:" + cn, kind="model", model=cn, file=fname, npts=npts, nzero=npts))
     for c in (LIVE_CASES[:10] if tier == "quick" else LIVE_CASES):
         out.append(dict(id="live:" + c, kind="live", case=c, reps=(2 if tier == "quick" else 8)))
     out.append(dict(id="regen", kind="regen", nmodels=(10 if tier == "quick" else 97), timeout=1800))
@@ -75,15 +76,28 @@ def jitter(vals, rng):
     return out
 
 
-def agree(a, b, slack=None):
+def agree(a, b, slack=None, defined_only=False):
     """Elementwise agreement incl. NaN/inf classes.  Returns (ok, worst relative difference).
-    ``slack``: additional absolute allowance per element (conditioning of the expression)."""
+    ``slack``: additional absolute allowance per element (conditioning of the expression).
+    ``defined_only``: elements where the declared expression ``b`` itself is undefined (non-finite: a singular point of
+    the declared string, where SymPy's algebraically equal form may legitimately differ) are left out."""
     a = np.asarray(a)
     b = np.asarray(b)
     try:
         a, b = np.broadcast_arrays(a, b)
     except ValueError:
         return False, float("inf")
+    if defined_only:
+        with np.errstate(all="ignore"):
+            keep = np.isfinite(b.astype(complex))
+            if slack is not None:
+                keep = keep & np.isfinite(np.broadcast_to(np.asarray(slack, dtype=float), a.shape))
+        if not keep.any():
+            return True, 0.0
+        a = a[keep]
+        b = b[keep]
+        if slack is not None:
+            slack = np.broadcast_to(np.asarray(slack, dtype=float), keep.shape)[keep]
     if np.iscomplexobj(a) or np.iscomplexobj(b):
         a = a.astype(complex)
         b = b.astype(complex)
@@ -108,7 +122,7 @@ def agree(a, b, slack=None):
     return worst <= 1.0, worst * 1e-9
 
 
-def compare(res, spec, label, got, want_str, vals, n, point):
+def compare(res, spec, label, got, want_str, vals, n, point, defined_only=False):
     from vf.oracle.expr import Evaluator, Unsupported
     ev = Evaluator(vals, spec.subs, n)
     try:
@@ -125,7 +139,9 @@ def compare(res, spec, label, got, want_str, vals, n, point):
             slack = 1e6 * np.abs(np.asarray(w2, dtype=complex) - np.asarray(want, dtype=complex))
     except Exception:
         pass
-    ok, worst = agree(got, want, slack)
+    ok, worst = agree(got, want, slack, defined_only=defined_only)
+    if defined_only:
+        res.count("points_with_exact_zeros_compared")
     if not ok:
         g = np.asarray(got)
         w = np.asarray(want)
@@ -150,6 +166,37 @@ def run_model(spec_case, res):
     # md5 of the file must be the md5 of the model as declared now
     if getattr(gen, "md5", None) != m.get_md5():
         res.violate("md5_mismatch", "%s: generated file carries md5 %s, the model's strings hash to %s" % (sp.name, getattr(gen, "md5", None), m.get_md5()))
+    # staleness detection rests on that checksum: every declared string that code is generated from must enter it
+    base_md5 = m.get_md5()
+    for vname, var in m.cache.all_vars.items():
+        for attr in ("v_str", "v_iter", "e_str"):
+            old = getattr(var, attr, None)
+            if old is None:
+                continue
+            setattr(var, attr, "%s + 0.5" % (old,))
+            try:
+                res.count("md5_sensitivity_probes")
+                if m.get_md5() == base_md5:
+                    res.violate("md5_blind_to_string", "%s: changing %s of variable %s (%r -> %r) leaves the model checksum unchanged: code generated "
+                                "from the old string would be accepted as current" % (sp.name, attr, vname, old, getattr(var, attr)),
+                                model=sp.name, attr=attr)
+            finally:
+                setattr(var, attr, old)
+    for sname, svc in m.services.items():
+        old = getattr(svc, "v_str", None)
+        if old is None:
+            continue
+        svc.v_str = "%s + 0.5" % (old,)
+        try:
+            res.count("md5_sensitivity_probes")
+            if m.get_md5() == base_md5:
+                res.violate("md5_blind_to_string", "%s: changing v_str of service %s leaves the model checksum unchanged" % (sp.name, sname),
+                            model=sp.name, attr="service.v_str")
+        finally:
+            svc.v_str = old
+    if m.get_md5() != base_md5:
+        res.inconc("md5 probe did not restore the model")
+        return
     all_strs = [s for s in sp.f_str + sp.g_str if s] + list(sp.services.values())
     bps = sorted(set(b for s in all_strs for b in literal_breakpoints(s)))
     groups = []   # (label, function, arg names, [(sublabel, declared string)], shape kind)
@@ -170,8 +217,17 @@ def run_model(spec_case, res):
     nexpr = 0
     for label, fn, args, items, kind in groups:
         bad = False
-        for point in range(spec_case["npts"]):
+        for point in range(spec_case["npts"] + spec_case.get("nzero", 0)):
             vals = sp.draw_args(rng, args, n, breakpoints=bps, dae_t=[-1.0, 0.0, 0.5][point % 3])
+            zero_rich = point >= spec_case["npts"]
+            if zero_rich:
+                # exact zeros in the inputs (zero denominators of guarded divisions, zero gains / time constants ...)
+                for a_ in args:
+                    v_ = np.asarray(vals[a_])
+                    if not a_.startswith("__") and v_.dtype.kind in "fc" and v_.ndim == 1 and v_.size == n:
+                        v_ = v_.copy()
+                        v_[rng.random(n) < 0.2] = 0
+                        vals[a_] = v_
             try:
                 with np.errstate(all="ignore"):
                     ret = fn(*[vals[a] for a in args])
@@ -206,7 +262,7 @@ def run_model(spec_case, res):
                     vals2.update(extra)
                 else:
                     vals2 = vals
-                r = compare(res, sp, "%s[%s]" % (label, sub), out, s, vals2, n, point)
+                r = compare(res, sp, "%s[%s]" % (label, sub), out, s, vals2, n, point, defined_only=zero_rich)
                 if r is False:
                     bad = True
             if bad:
